@@ -418,6 +418,65 @@ func genOp(c *simkit.Choices, sh *shared, taskIdx int) *op {
 		variant := taskIdx*2 + c.N(2)
 		f := model.Formats[c.N(3)]
 		cd := common.ByName(f)
+		if c.N(3) == 0 {
+			// a type that only an iterator with a matching user folder can fold:
+			// some tasks have the folder, others do not (and must be refused) -
+			// neither outcome may leak into another iterator
+			plain := c.N(3) == 0
+			z := complex(float64(c.N(100)), float64(c.N(100)))
+			odd := model.Odd{A: model.GenText(c, 8), C: z, L: []complex128{z, -z}, P: &z}
+			var shape interface{} = odd
+			switch c.N(3) {
+			case 0:
+				shape = []model.Odd{odd}
+			case 1:
+				shape = map[string]model.Odd{"k": odd}
+			}
+			desc := OpDesc{Kind: "custom-folder-for-unsupported-kind", Format: string(f), Variant: variant}
+			if plain {
+				desc.Kind = "no-folder-for-unsupported-kind"
+			}
+			return &op{desc: desc,
+				check: func(_ string, parts []interface{}) string {
+					if len(parts) != 2 {
+						return ""
+					}
+					out, _ := parts[0].([]byte)
+					if plain {
+						if parts[1] == nil {
+							return "an iterator without a folder for complex128 folded a value containing one"
+						}
+						return ""
+					}
+					if parts[1] != nil {
+						return fmt.Sprintf("an iterator WITH a user-defined folder for complex128 refused the value: %v", parts[1])
+					}
+					if strings.Count(string(out), marker("c", variant)) != 4 {
+						return "output lacks the marker of this iterator's own complex128 folder " + marker("c", variant) + " in some of the 4 positions"
+					}
+					if m := foreignMarker(string(out), "c", variant); m != "" {
+						return "output carries the marker of ANOTHER iterator's folder: " + m
+					}
+					return ""
+				},
+				run: func(yield func()) []interface{} {
+					return guard(func() []interface{} {
+						w := yieldingWriter(yield)
+						var opts []gotype.FoldOption
+						if !plain {
+							opts = append(opts, gotype.Folders(func(z *complex128, vs structform.ExtVisitor) error {
+								return vs.OnString(marker("c", variant) + fmt.Sprint(*z))
+							}))
+						}
+						it, err := gotype.NewIterator(cd.NewVisitor(w), opts...)
+						if err != nil {
+							return []interface{}{err}
+						}
+						err = it.Fold(shape)
+						return []interface{}{w.Buf, err}
+					})
+				}}
+		}
 		val := model.Nested{I: model.Inner{X: int8(c.N(100)), Z: model.GenText(c, 10)}, S: model.Simple{B: "s"}}
 		var shape interface{} = val
 		if c.Bool() {
